@@ -42,46 +42,39 @@ static cJSON *create_info(void)
 	}
 
 	cJSON *name = cJSON_CreateString(CJET_NAME);
-	if (name == NULL) {
+	if (unlikely(add_item_to_object(root, "name", name) < 0)) {
 		goto error;
 	}
-	cJSON_AddItemToObject(root, "name", name);
 
 	cJSON *version = cJSON_CreateString(CJET_VERSION);
-	if (version == NULL) {
+	if (unlikely(add_item_to_object(root, "version", version) < 0)) {
 		goto error;
 	}
-	cJSON_AddItemToObject(root, "version", version);
 
 	cJSON *protocol_version = cJSON_CreateString("1.0.0");
-	if (protocol_version == NULL) {
+	if (unlikely(add_item_to_object(root, "protocolVersion", protocol_version) < 0)) {
 		goto error;
 	}
-	cJSON_AddItemToObject(root, "protocolVersion", protocol_version);
 
 	cJSON *features = cJSON_CreateObject();
-	if (unlikely(features == NULL)) {
+	if (unlikely(add_item_to_object(root, "features", features) < 0)) {
 		goto error;
 	}
-	cJSON_AddItemToObject(root, "features", features);
 
 	cJSON *batches = cJSON_CreateTrue();
-	if (unlikely(batches == NULL)) {
+	if (unlikely(add_item_to_object(features, "batches", batches) < 0)) {
 		goto error;
 	}
-	cJSON_AddItemToObject(features, "batches", batches);
 
 	cJSON *authentication = cJSON_CreateTrue();
-	if (unlikely(authentication == NULL)) {
+	if (unlikely(add_item_to_object(features, "authentication", authentication) < 0)) {
 		goto error;
 	}
-	cJSON_AddItemToObject(features, "authentication", authentication);
 
 	cJSON *fetch = cJSON_CreateString("full");
-	if (fetch == NULL) {
+	if (unlikely(add_item_to_object(features, "fetch", fetch) < 0)) {
 		goto error;
 	}
-	cJSON_AddItemToObject(features, "fetch", fetch);
 
 	return root;
 
